@@ -168,7 +168,7 @@ Fixpoint gen_stmt (fuel : nat) (s : stmt) (g : gout) {struct fuel} : gout :=
                    blocks t (S i) g
                end) cases 0 g in
           let g := match els with Some b => block b (emit g [lab KCaseElse 0 0 p]) | None => g end in
-          emit g [lab KEndSelect 0 0 p; (IPopA, p)]
+          emit (mark g) [lab KEndSelect 0 0 p; (IPopA, p)]
       end
   end.
 
